@@ -28,7 +28,7 @@ use stun::message::*;
 
 const USER: &str = "turnuser";
 const PASS: &str = "turnpass";
-const WAIT: Duration = Duration::from_secs(12); // positive waits for what the model expects
+const WAIT: Duration = Duration::from_secs(8); // positive waits for what the model expects
 
 fn realm(r: u64) -> String {
     format!("realm{r}.example.org")
@@ -137,6 +137,8 @@ struct World {
     relayed: SocketAddr,
     peer: SocketAddr,
     channel: Option<u16>,
+    /// channel number of the ChannelBind request being answered (bound only by a success response)
+    pending_channel: Option<u16>,
     rec: Arc<Recorder>,
     seen_inner: Vec<[u8; 12]>,
 }
@@ -266,7 +268,7 @@ impl World {
                                             bad.push(format!("rebind uses channel {ch:#x}, bound is {c:#x}"));
                                         }
                                     }
-                                    self.channel = Some(ch);
+                                    self.pending_channel = Some(ch);
                                 }
                                 other => bad.push(format!("CHANNEL-NUMBER {other:?}")),
                             }
@@ -402,6 +404,9 @@ async fn serve(w: &mut World, step: &Value, lifetime: u32, sn: &mut u64, sr: &mu
                 let react = reacts.get(ri).cloned().unwrap_or_else(|| "ok".into());
                 ri += 1;
                 let authed = if exp["auth"].as_bool().unwrap() { Some(exp["r"].as_u64().unwrap()) } else { None };
+                if m.typ.method == METHOD_CHANNEL_BIND && react == "ok" {
+                    w.channel = w.pending_channel;
+                }
                 if let Some(bytes) = w.response(m, &react, lifetime, sn, sr, authed) {
                     w.srv.send(&bytes).await;
                 }
@@ -438,7 +443,7 @@ async fn run_scenario(run: &Value, rng: &mut Rng) -> Result<(), Value> {
     let rec = Arc::new(Recorder(Mutex::new(Vec::new())));
     let relayed: SocketAddr = format!("127.0.0.1:{}", 50000 + rng.below(10000)).parse().unwrap();
     let peer: SocketAddr = format!("127.0.0.1:{}", 30000 + rng.below(10000)).parse().unwrap();
-    let mut w = World { srv, agent, relayed, peer, channel: None, rec, seen_inner: vec![] };
+    let mut w = World { srv, agent, relayed, peer, channel: None, pending_channel: None, rec, seen_inner: vec![] };
     let (mut sn, mut sr) = (0u64, 0u64);
     let mut lifetime = 600u32;
     let mut result = Ok(());
